@@ -2,10 +2,12 @@ import Driver.Util
 import Driver.Pipe
 import Driver.Sys
 import Driver.Cluster
+import Driver.PutOrder
 namespace Driver.Reg.Sys
 def engines : List (String × IO UInt32) := [
   ("pipe", Driver.runEngine Driver.Pipe.engine),
   ("sys", Driver.runEngine Driver.Sys.engine),
-  ("cluster", Driver.runEngine Driver.Cluster.engine)
+  ("cluster", Driver.runEngine Driver.Cluster.engine),
+  ("putorder", Driver.runEngine Driver.PutOrder.engine)
 ]
 end Driver.Reg.Sys
